@@ -153,6 +153,18 @@ RRun(mode, q, tsig, key, r, envs, i) ==
   ELSE IF i > Len(envs) THEN REnd(r)
   ELSE RRun(mode, q, tsig, key, [RStep(mode, q, tsig, key, r, envs[i]) EXCEPT !.used = i], envs, i + 1)
 
+(* The consumer.  Transfer.In hands every envelope to its caller over an       *)
+(* unbuffered channel: the receiver cannot proceed before the consumer took    *)
+(* the previous envelope, and the consumer may be arbitrarily slow (it writes  *)
+(* a zone to disk between two receives).  Handoff: `pending' is the envelope   *)
+(* offered and not yet taken (at most one), `taken' what the consumer has.     *)
+(* Whatever the pace, the consumer ends up with exactly what RRun delivers --  *)
+(* every envelope and the error, if any -- before the channel is closed:       *)
+(* MC_Xfr runs the consumer as a process of its own (actions Recv / Consume).    *)
+HandoffOK(delivered, pending, taken) ==
+  /\ Len(pending) <= 1
+  /\ taken \o pending = delivered
+
 (* What the user of Transfer.In must observe: the envelopes delivered without *)
 (* error, then an error envelope iff err, then the channel closed and the     *)
 (* connection closed; `used' envelopes were consumed from the connection.     *)
